@@ -152,6 +152,16 @@ def run_check(prop: Prop, tier: str, seed: int, replay: str | None = None) -> in
     violations: list[tuple[str, str]] = []     # (replay path, suffix)
     notes: list[str] = []
     ctx = {"repo": REPO, "tier": tier, "seed": seed}
+    # obligations recorded in lean/obligations.json (tools/mkobligations.py) are merged in
+    try:
+        with open(os.path.join(VERIF, "lean", "obligations.json")) as f:
+            ob = json.load(f).get(pid, {})
+    except FileNotFoundError:
+        ob = {}
+    prop.theorems = list(dict.fromkeys(list(prop.theorems) + ob.get("theorems", [])))
+    prop.witnesses = list(dict.fromkeys(list(prop.witnesses) + ob.get("witnesses", [])))
+    for n in ob.get("partial", []):
+        prop.partial.setdefault(n, "see the docstring of the theorem and DESIGN.md")
 
     if replay is not None:
         return run_replay(prop, replay)
